@@ -499,6 +499,10 @@ def r18_7(run):
     tor = run.idx.cls('Tor', 'controller')
     if tor is None:
         raise AnchorVanished('controller.Tor')
+    de_ = run.idx.find_method(tor, '_default_socks_endpoint')
+    if de_ is not None and not any(isinstance(x, (ast.Yield, ast.Await)) for x in walk_unit(de_)) and de_.children:
+        raise Undecided('Tor._default_socks_endpoint is written with explicit callbacks (nested %s): the "chosen once, remembered, returned" flow is only followed in coroutine form'
+                        % ', '.join(c.name for c in de_.children)[:60])
     k = 0
     for u in class_units(run.idx, tor):
         for n in walk_unit(u):
